@@ -36,7 +36,9 @@ def main():
     # 1. the patch is exactly the worktree's change
     r = sh(["git", "-C", wt, "diff", "--", "include"])
     patch = open(os.path.join(seed, "patch.diff")).read()
-    same = r.stdout.strip() == patch.strip()
+    def body(t):  # the changed lines themselves; hunk positions and blob ids may differ when /repo has moved on since the patch was written
+        return [l for l in t.strip().splitlines() if not l.startswith("@@") and not l.startswith("index ")]
+    same = body(r.stdout) == body(patch)
     tmp = tempfile.mkdtemp(prefix="seedchk_", dir="/tmp")
     try:
         sh("git -C /repo archive HEAD include | tar -x -C %s" % tmp)
